@@ -301,6 +301,10 @@ func tamper(blob []byte, rb *refBlob, cs map[string]any) {
 			var k kcl.KeyCredential
 			err = k.FromBytes(t)
 			if err == nil {
+				if bit%3 == 1 {
+					// re-serialising a parsed credential in between must not launder the tampering
+					k.ToBytes()
+				}
 				intact = k.CheckIntegrity()
 			}
 		})
@@ -434,11 +438,12 @@ var dnBoundary = []string{
 	"CN=Пользователь,DC=пример,DC=com", "CN=密码:钥,DC=x", "CN=😀,DC=x", "OU=\"quoted:colon\",DC=x", "CN=a\\3Ab,DC=x", "cn=lower,dc=case",
 	"CN=" + strings.Repeat("x", 300) + ",DC=long", "CN=trailing space ,DC=x", "CN=new\nline,DC=x", "CN=eq=eq,DC=x", "CN=semi;colon,DC=x", "CN=<a>,DC=x",
 	"CN=x,DC=trailing ", " CN=leading,DC=x", "CN=x\\ ", "CN=tab\t", "\tCN=x", "CN=x\n",
+	"CN=Discount 100% Off,DC=x", "CN=%s%d%v,DC=%x", "CN=100%,DC=x", "CN=%%,DC=x", "CN=%!s(MISSING),DC=x", "%",
 }
 
 func randDN(rng *rand.Rand) string {
 	types := []string{"CN", "OU", "DC", "O", "L", "cn", "UID", "2.5.4.3"}
-	alphabet := []string{"a", "b", "Z", "0", "9", " ", ":", ":", ",", "\\,", "\\+", "=", "+", "\"", "\\\"", "#", ";", "<", ">", "é", "я", "密", "😀", ".", "-", "_", "\\3A", "\\20"}
+	alphabet := []string{"%", "%s", "%d", "a", "b", "Z", "0", "9", " ", ":", ":", ",", "\\,", "\\+", "=", "+", "\"", "\\\"", "#", ";", "<", ">", "é", "я", "密", "😀", ".", "-", "_", "\\3A", "\\20"}
 	var parts []string
 	for i, n := 0, 1+rng.IntN(6); i < n; i++ {
 		var sb strings.Builder
@@ -502,6 +507,9 @@ func makeCase(rng *rand.Rand, i int, boundary bool) *kcCase {
 		}
 		if i%4 == 1 {
 			c.P1, c.P2 = randBytes(rng, (n+1)/2), randBytes(rng, (n+1)/2)
+		}
+		if i%8 == 7 {
+			c.P1, c.P2 = nil, randBytes(rng, 1+n/2) // the second prime only
 		}
 		if i%8 == 3 {
 			c.P1, c.P2 = randBytes(rng, 1+n/2), nil // one prime only
